@@ -5,7 +5,7 @@ from .. import standalone as sa
 def run(ck):
     asan = ck.build("asan", ["netcache_mon"])["netcache_mon"]
     thorough = ck.tier == "thorough"
-    k = (60 if thorough else 1) * ck.scale
+    k = (150 if thorough else 1) * ck.scale
     jobs = []
     # at most ~150 worlds per process: every world creates services whose thread-specific keys stay allocated (1024 per process)
     chunks = max(1, int(12 * k + 149) // 150)
@@ -22,12 +22,13 @@ def run(ck):
     # torn value, full linearizability of short histories) for the behaviour
     tsan = ck.build("tsan", ["cache_conc"])["cache_conc"]
     asanc = ck.build("asan", ["cache_conc"])["cache_conc"]
+    kc = min(k, 60 * ck.scale)      # the concurrent jobs keep their size: one process each
     for i in range(6):
         exe = tsan if i % 3 != 2 else asanc
-        jobs.append(dict(exe=exe, args=["--mode", "netshort", "--histories", int(150 * k), "--yield", [0, 30, 120][i % 3], "--seed", sa.subseed(ck, 70 + i)], label="netshort%d" % i, timeout=14400))
+        jobs.append(dict(exe=exe, args=["--mode", "netshort", "--histories", int(150 * kc), "--yield", [0, 30, 120][i % 3], "--seed", sa.subseed(ck, 70 + i)], label="netshort%d" % i, timeout=14400))
     for i in range(4):
         exe = tsan if i % 2 == 0 else asanc
-        jobs.append(dict(exe=exe, args=["--mode", "netlong", "--histories", int(3 * k), "--ops", 300, "--threads", 6, "--yield", [0, 60][i % 2], "--seed", sa.subseed(ck, 80 + i)], label="netlong%d" % i, timeout=14400))
+        jobs.append(dict(exe=exe, args=["--mode", "netlong", "--histories", int(3 * kc), "--ops", 300, "--threads", 6, "--yield", [0, 60][i % 2], "--seed", sa.subseed(ck, 80 + i)], label="netlong%d" % i, timeout=14400))
     sa.run_jobs(ck, jobs, sets=("worlds", "shapes"))
     ck.counters["ops_total"] = sum(ck.counters.get(x, 0) for x in ("stores", "fetches", "rises", "clears", "ops"))
     ck.inconclusive += ck.counters.get("linearizability_inconclusive", 0)
